@@ -22,7 +22,8 @@ Local Open Scope Z_scope.
 Inductive fn :=
   | FMin | FMax | FClamp | FClamp01 | FSum | FProduct | FAbs | FDigits10 | FDigitsSign10
   | FCompare | FLess
-  | FCoal | FZero | FZeroOf | FIsZero | FTern | FTernCast | FIsNil | FRef | FDerefZero.
+  | FCoal | FZero | FZeroOf | FIsZero | FTern | FTernCast | FIsNil | FRef | FDerefZero
+  | FIsZeroAny | FTernCastIface.
 
 Inductive nty :=
   | TI (sg : bool) (w : Z)   (* integer type: signed?, width 8/16/32/64 *)
@@ -89,6 +90,22 @@ Definition run_util (f : fn) (tup : list Z) : option (result Z) :=
                    else OfIface (if dyn =? 0 then None else Some (dyn, payload)) in
       Some (Ok (b2z (is_nil value)))
   | FRef, [v] => Some (Ok (deref_zero 0 (ref v)))            (* observed: *Ref(v) *)
+  (* IsZero[any]: the value is an interface (dyn = 0: nil); its payload is (v, z).  Dynamic types 2 and 4
+     have an IsZero method (2: returns z, 4: returns true); the others (1 int, 3 a slice: not comparable) have none. *)
+  | FIsZeroAny, [dyn; v; z] =>
+      let value : iface (Z * Z) := if dyn =? 0 then None else Some (dyn, (v, z)) in
+      let meth := if dyn =? 2 then Some (fun i : iface (Z * Z) => match i with Some (_, p) => z2b (snd p) | None => false end)
+                  else if dyn =? 4 then Some (fun _ : iface (Z * Z) => true) else None in
+      let eqb (a b : iface (Z * Z)) := option_eqb (prod_eqb Z.eqb pair_eqb) a b in
+      Some (Ok (b2z (is_zero eqb None meth value)))
+  (* TernCast[T], T an interface type: tkind 0 = any (every dynamic type implements it), 1 = error (only
+     dynamic type 7 does).  Interface values are coded dyn * 100 + payload (0 <= payload < 100), nil = 0. *)
+  | FTernCastIface, [tkind; cond; dyn; payload; ifFalse] =>
+      let impl := if tkind =? 0 then (fun _ : Z => true) else (fun d : Z => d =? 7) in
+      let dec (x : Z) : iface Z := if x =? 0 then None else Some (x / 100, x mod 100) in
+      let enc (i : iface Z) : Z := match i with None => 0 | Some (d, p) => d * 100 + p end in
+      let value : iface Z := if dyn =? 0 then None else Some (dyn, payload) in
+      Some (match tern_cast_iface impl (z2b cond) value (dec ifFalse) with Ok i => Ok (enc i) | Panic k => Panic k end)
   | FDerefZero, [isnil; v] => Some (Ok (deref_zero 0 (if z2b isnil then None else Some v)))
   | _, _ => None
   end.
@@ -126,7 +143,8 @@ Definition run_ord (f : fn) (tup : list Z) : option (result Z) :=
 
 Definition is_util (f : fn) : bool :=
   match f with
-  | FZero | FZeroOf | FIsZero | FTern | FTernCast | FIsNil | FRef | FDerefZero => true
+  | FZero | FZeroOf | FIsZero | FTern | FTernCast | FIsNil | FRef | FDerefZero
+  | FIsZeroAny | FTernCastIface => true
   | _ => false
   end.
 
